@@ -25,10 +25,12 @@ for p in props:
             "engine": "lean4-model+correspondence",
             "level_claimed": {
                 "category": "proof",
-                "text": P.level_text if hasattr(P, "level_text") else (
+                "text": (P.level_text if hasattr(P, "level_text") else (
                     "Lean 4 theorems about a model of the code (kernel-checked, axioms audited), tied to the working tree by "
                     "regenerated data and a model-vs-implementation correspondence run; laws from the statement are "
-                    "searched on the real code for a replayable failing input"),
+                    "searched on the real code for a replayable failing input")) + (
+                    f" {len(P.theorems)} theorems audited, among them: " + ", ".join(P.theorems[:6]) + "."
+                    + (" Regenerated from the source on every run: " + ", ".join(P.generated) + "." if P.generated else "")),
                 "design_ref": f"DESIGN.md §7 {pid}",
             },
             "level_note": "; ".join(["trusted: Lean kernel, spec files, translator, correspondence harness", *P.trusted,
